@@ -52,6 +52,11 @@ class RefCache:
     def step(self, i, op):
         """expected canonical result of op number i, or None to abstain"""
         o = op["op"]
+        if o == "wabandon" or getattr(self, "_abstain", False):
+            # cancelled writes: what reaches the file depends on the writer's internal state machine; the simple
+            # reference has no opinion from here on (the Coq model does: Sess.v OAbandon)
+            self._abstain = True
+            return None
         if o == "damage":
             self.tainted = True
             if op["kind"] == "set" and op["loc"].startswith("c:index-v5/"):
